@@ -678,6 +678,12 @@ func rulePlacement(r *Run, rule, m string, allowed []string) {
 	var got []string
 	hasDefault := false
 	bad := ""
+	bound := "" // the symbol the switch binds (`switch t := …`)
+	if as, ok := ts.Assign.(*ast.AssignStmt); ok && len(as.Lhs) == 1 {
+		if id, ok := as.Lhs[0].(*ast.Ident); ok {
+			bound = id.Name
+		}
+	}
 	for _, cl := range ts.Body.List {
 		cc := cl.(*ast.CaseClause)
 		if cc.List == nil {
@@ -700,7 +706,7 @@ func rulePlacement(r *Run, rule, m string, allowed []string) {
 				return true
 			}
 			if sel, ok := ast.Unparen(as.Lhs[0]).(*ast.SelectorExpr); ok {
-				if id, ok := sel.X.(*ast.Ident); ok && id.Name == "t" {
+				if id, ok := sel.X.(*ast.Ident); ok && bound != "" && id.Name == bound {
 					attaches = true
 				}
 			}
